@@ -70,10 +70,10 @@ META["C03"] = {
 
 META["C05"] = {
     "category": "proof",
-    "design_ref": "DESIGN.md section 5 / C05",
-    "technique": "Lean 4: 'BatchDeliver only after a successful SetOutbox' proved for Send and outbox POST against every application (monitor judgement; the pre-delivery phase is shown delivery-free by re-running the compositional lock proofs with the payload predicate 'nothing'), its trace-level meaning proved, and the outbox history theorem (ids.foldl prependId lists the ids newest first) by induction; trace replay of the real code + spec monitor for wrap / fresh ids / Create normalisation (set equalities) / store / outbox page / Location",
-    "text": "Proved for all inputs, configurations and application answers: on every run of the transcribed Send and PostOutbox every BatchDeliver event is preceded by a SetOutbox that succeeded; any number of accepted posts leave the outbox page listing their ids newest first in front of the old items (given a Database that returns what it stored). The value-level clauses (wrapping, fresh ids, attribution/recipient unions, objects stored, Location) are decided per run by an independent set-level monitor over the real code's traces and by call-for-call agreement with the model; they are not yet theorems.",
-    "note": "Trusted: Lean kernel, transcription (replay-validated), fakes. 'Nothing is delivered after a failed step' is proved only in the form 'no delivery before SetOutbox succeeded'; that a failed earlier step prevents SetOutbox is checked on traces (outboxOrderMon), not proved.",
+    "design_ref": "DESIGN.md section 5 / C05 and section 9.5",
+    "technique": "Lean 4: the full order monitor (BatchDeliver only after a successful SetOutbox AND with no failed persistence / id / callback step before it) proved for Send and outbox POST against every application: a fail-fast judgement Ff (a value is returned only if no such step failed; nothing stored or delivered) discharged for every function of the pre-store phase by a rule-applying tactic, a delivery-phase judgement Fd for prepare/resolveActors/deliver, the monitor's trace-level meaning, and the outbox history theorem by induction; trace replay of the real code + the same monitor on real traces + set-level oracles for wrap / fresh ids / Create normalisation / store / outbox page / Location",
+    "text": "Proved for all inputs, configurations and application answers (so: every single fault and every combination): on every run of the transcribed Send and PostOutbox, every BatchDeliver event is preceded by a SetOutbox that succeeded, and every Database / id / callback step made before the outbox was updated - and the update itself - succeeded (send_failfast_trace, postOutbox_failfast_trace); any number of accepted posts leave the outbox page listing their ids newest first in front of the old items (given a Database that returns what it stored). The value-level clauses (wrapping, fresh ids, attribution/recipient unions, objects stored, Location) are decided per run by an independent set-level monitor over the real code's traces and by call-for-call agreement with the model; they are not theorems.",
+    "note": "Trusted: Lean kernel, transcription (replay-validated, fault-free and single-fault), fakes. A failing Unlock is ignored by the library and hence by the monitor. Value-level clauses: per-run oracle only.",
 }
 
 META["C06"] = {
